@@ -736,13 +736,13 @@ func main() {
 		add(2, 1, sequences(gasAlpha, 4))
 		add(5, 1, sequences(gasAlpha, 3))
 	} else {
-		add(5, 1, sequences(gasAlpha, 3))
+		add(5, 1, sequences([]int{0, 1, 5, 6}, 3))
 	}
 	// late-child scenarios: after the bulk (two full proposer batches) a head that fits / fits exactly / overflows
 	// (the third batch), then either nothing or 16 fillers (which push the rest into the fourth batch), then cheap
 	// children of the gas-heavy transactions: child of the transaction that did not fit, child of the last one that
 	// fitted, in the same batch and in a later batch
-	heads := [][]int{{5}, {6}, {5, 6}, {6, 5}, {0, 5, 6}, {0, 6, 5}, {5, 0, 6}, {6, 0, 5}, {5, 6, 0}, {6, 5, 0}}
+	heads := [][]int{{5}, {0, 5, 6}, {0, 6, 5}, {5, 0, 6}, {6, 0, 5}}
 	tails := [][]int{{7}, {8}, {7, 8}}
 	if thorough {
 		heads = sequences([]int{0, 5, 6}, 3)[1:]
